@@ -1093,8 +1093,10 @@ func (m *Model) methodScalar(a *Node, item any, next emitFn) *merr {
 		case int64:
 			return next(strconv.FormatInt(v, 10))
 		case float64:
-			if v == 0 && math.Signbit(v) {
-				return openErr("-0 through .string()")
+			if v == 0 {
+				// the sign of a double zero is not fixed by the rules (-1 % 1, a negative value
+				// rounded to zero, -0.0 in a document ...): "0" and "-0" are both left open
+				return openErr("a double zero through .string()")
 			}
 			return next(strconv.FormatFloat(v, 'f', -1, 64))
 		}
